@@ -601,7 +601,10 @@ func (d *driver) runLife(w *world, inner sdkdb.DB, in incSpec) lifeObs {
 	}
 	obs.killed = kdb.isDead()
 	idx.mu.Lock()
-	obs.indexedOK = idx.ok
+	obs.indexedOK = map[int64]bool{}
+	for h := range idx.ok {
+		obs.indexedOK[h] = true
+	}
 	idx.mu.Unlock()
 	obs.served = fc.servedFails()
 	return obs
